@@ -307,6 +307,10 @@ class WaitInitiatorCEA(State):
     def run(self) -> None:
         self.set_wait_initiator_cea_state(set_name=True)
 
+        if self.is_set_release_signal_from_peer():
+            self.event_initiator_peer_disc()
+            return
+
         if self.has_recv_queue_message():
             self.msg = self.get_message()
 
@@ -508,6 +512,10 @@ class Closing(State):
     def run(self) -> None:
         self.set_closing_state(set_name=True)
 
+        if self.is_set_release_signal_from_peer():
+            self.event_peer_disc()
+            return
+
         if self.has_recv_queue_message():
             self.msg = self.get_message()
 
@@ -519,6 +527,12 @@ class Closing(State):
 
     def event_rcv_dpa(self) -> None:
         open_logger.debug("Event has been triggered.")
+
+        self.set_closed_state(force=True)
+
+
+    def event_peer_disc(self) -> None:
+        closing_logger.debug("Event has been triggered.")
 
         self.set_closed_state(force=True)
 
